@@ -418,6 +418,12 @@ def run_shard(ctx):
         for i in range(ctx.cases):
             rng = ctx.rng(i)
             cfg_id, terms, prods = make_case(rng)
+            if rng.random() < 0.08 and len(prods) > 1 and '' not in llmon.TOKCFGS[cfg_id].terminals:
+                # one of the symbols has the empty name (names are the user's business: any string will do)
+                old = rng.choice(sorted(n for n in prods if n != 'E'))
+                prods = {('' if k == old else k): [tuple('' if x == old else x for x in alt) for alt in alts]
+                         for k, alts in prods.items()}
+                ctx.count("grammars_with_a_symbol_of_the_empty_name")
             any_spec = None
             if rng.random() < 0.15 and "SPACE" not in llmon.TOKCFGS[cfg_id].terminals:
                 any_spec = add_any_token_except(rng, llmon.TOKCFGS[cfg_id], prods)
